@@ -121,11 +121,11 @@ def run(ctx):
     pool = [c for c in cases[n_ex1:] if c[1] == "g" and all(n == "g" for n, _ in c[0]) and len(c[0]) >= 1
             and len({json.dumps(p) for _, p in c[0]}) == len(c[0])]
     for (decls, name, args) in rng.sample(pool, min(len(pool), 150 if ctx.tier == "quick" else 1500)):
-        src = "struct S1 { float x; }\n"
-        for k, (n, ps) in enumerate(decls):
-            src += "function g(%s) -> int { return %d; }\n" % (", ".join("%s p%d" % (spell(p), j) for j, p in enumerate(ps)), k + 1)
-        src += "export function f(%s) -> int { return g(%s); }\n" % (", ".join("%s a%d" % (spell(a), j) for j, a in enumerate(args)),
-                                                                      ", ".join("a%d" % j for j in range(len(args))))
+        # the caller is placed before, between or after the overloads: the outcome must not depend on the declaration order
+        fns = ["function g(%s) -> int { return %d; }\n" % (", ".join("%s p%d" % (spell(p), j) for j, p in enumerate(ps)), k + 1) for k, (n, ps) in enumerate(decls)]
+        fns.insert(rng.randrange(len(fns) + 1), "export function f(%s) -> int { return g(%s); }\n" % (", ".join("%s a%d" % (spell(a), j) for j, a in enumerate(args)),
+                                                                                                       ", ".join("a%d" % j for j in range(len(args)))))
+        src = "struct S1 { float x; }\n" + "".join(fns)
         e2e_cases.append((decls, args, src, {"a%d" % j: value(a) for j, a in enumerate(args)}))
         e2e_lines.append('expect %s "g" %s' % (cdecls(decls), coq_list([cty(a) for a in args])))
     res2 = [x for chunk in ctx.run_impl("c10_impl.py", [{"k": "e2e", "cases": [(c[2], c[3]) for c in e2e_cases[i:i + 20]]}
@@ -171,7 +171,7 @@ def run(ctx):
     ctx.cov["rule"] = ("Scope.RegisterFunction/FindFunction driven directly: every ordered set of <=3 one-parameter overloads over a 9-type universe "
                        "(int,uint,float,int2,float2,float3,float4,float3x3,struct) x every argument type (exhaustive); every ordered set of <=2 (thorough: <=3) "
                        "two-parameter overloads over {int,float,float2,struct} x every argument list; random sets with mixed arity 0-3, duplicates, other and "
-                       "unknown names; plus end-to-end programs whose overloads return distinct constants, run on the VM. Non-trivial: at least two declarations; distinct by content.")
+                       "unknown names; plus end-to-end programs whose overloads return distinct constants (the calling function declared before, between or after them), run on the VM. Non-trivial: at least two declarations; distinct by content.")
     ctx.cov["samples"] = [{"decls": c[0], "name": c[1], "args": c[2], "impl": x} for c, x in list(zip(cases, res))[n_ex1 + 5000:n_ex1 + 5003]] + \
                          ([{"source": e2e_cases[0][2], "observed": res2[0]}] if e2e_cases else [])
     ctx.extra["input_distribution"] = dist
